@@ -123,20 +123,7 @@ theorem C09_links_sync_receiving_witness :
     link [.leaf 0 [.arg 0, .none, .none]] [.out 0 0] 0 = .child 0 0 := by
   decide
 
-theorem wRecv_wf : WF wRecv := by
-  simp only [wRecv, WF, WFBody, Node.srcs, Node.arity, Node.nout, noutsOf, List.length_cons, List.length_nil,
-    List.getElem?_cons_zero, true_and, and_true]
-  refine ⟨⟨?_, ?_⟩, ?_⟩
-  · simp [noutsOf]
-  · intro i s hs
-    match i, hs with
-    | 0, hs => simp at hs; subst hs; simp [SrcWF]
-    | 1, hs => simp at hs; subst hs; simp [SrcWF, Node.dflt]
-    | 2, hs => simp at hs; subst hs; simp [SrcWF, Node.dflt]
-    | i + 3, hs => simp at hs
-  · intro x hx
-    simp at hx; subst hx
-    simp [RetWF, noutsOf, Node.nout]
+theorem wRecv_wf : WF wRecv := wfb_sound _ (by decide)
 
 theorem wRecv_nodup : NoDupH wRecv := by simp [wRecv, NoDupH, NoDupHB]
 
@@ -176,20 +163,7 @@ theorem C09_dup_return_values :
     denote wDup ((build wDup).get .inp) 0 = .app 0 [.c 1, .c 0, .c 0] := by
   decide
 
-theorem wDup_wf : WF wDup := by
-  simp only [wDup, WF, WFBody, Node.srcs, Node.arity, Node.nout, noutsOf, List.length_cons, List.length_nil,
-    List.getElem?_cons_zero, true_and, and_true]
-  refine ⟨⟨?_, ?_⟩, ?_⟩
-  · simp [noutsOf]
-  · intro i s hs
-    match i, hs with
-    | 0, hs => simp at hs; subst hs; simp [SrcWF]
-    | 1, hs => simp at hs; subst hs; simp [SrcWF, Node.dflt]
-    | 2, hs => simp at hs; subst hs; simp [SrcWF, Node.dflt]
-    | i + 3, hs => simp at hs
-  · intro x hx
-    simp at hx; subst hx
-    simp [RetWF, noutsOf, Node.nout]
+theorem wDup_wf : WF wDup := wfb_sound _ (by decide)
 
 theorem C09_dup_return_witness : ¬ C09_inline_Statement Cfg.pinned := by
   intro hs
@@ -278,6 +252,8 @@ example : denote exTop (fun _ => .c 1) 0 =
               .app 3 [.c 1, .c 0, .c 0], .c 3], .c 3, .c 0] := by decide
 
 /-- the hypotheses of the theorems are satisfiable by this definition: it is well-formed and closed … -/
+example : WF exTop := wfb_sound _ (by decide)
+
 example : NoDupH exTop := by simp [exTop, exMid, exInner, NoDupH, NoDupHB]
 
 /-- … and the reachable state "built, input assigned, run, input changed" exists -/
